@@ -204,6 +204,9 @@ Proof.
 Qed.
 
 (** ---------------------------------------------------------------- the returned graph of an all-atom step *)
+(** the attribute keys a step writes itself; every other attribute of a template atom is the copy's *)
+Definition written_keys : list pystr :=
+  [S "fragid"; S "mapping"; S "ez_isomer_atoms"; S "hcount"; S "aromatic"; S "ez_isomer"; S "ez_isomer_class"; S "atomname"].
 Theorem step_allatom_copy legacy fd prev g1 fo : tmpl_dict fd -> wf_attrs fd ->
   resolve_step_full legacy true fd prev (Some g1) = Ok fo -> fo_m3 fo = fo_m2 fo ->
   (forall es, base_edges (fo_meta fo) = Ok es -> wf_edges es) -> RebuildWf.all_no_rs g1 ->
@@ -212,7 +215,8 @@ Theorem step_allatom_copy legacy fd prev g1 fo : tmpl_dict fd -> wf_attrs fd ->
   exists cf : Z -> Z,
     (forall a b, In a (node_keys frag) -> In b (node_keys frag) -> cf a = cf b -> a = b) /\
     (forall n, In n frag -> node_get (fo_mol fo) (cf (nk n)) (S "fragid") = Some (VList [VInt (nk mn)]) /\
-                            node_get (fo_mol fo) (cf (nk n)) (S "mapping") = Some (mapping_val name (nk n))) /\
+                            node_get (fo_mol fo) (cf (nk n)) (S "mapping") = Some (mapping_val name (nk n)) /\
+                            forall key v, ~ In key written_keys -> aget key (na n) = Some v -> node_get (fo_mol fo) (cf (nk n)) key = Some v) /\
     (forall a b, In a (node_keys frag) -> In b (node_keys frag) -> has_edge (fo_mol fo) (cf a) (cf b) = has_edge frag a b).
 Proof.
   intros Hd Hwa H. unfold resolve_step_full in H. cbv zeta in H.
@@ -241,13 +245,16 @@ Proof.
   assert (forall t, In t (node_keys frag) -> In (cf0 t) (node_keys m4)) as Hin4 by (intros t Ht; exact (c_in4 m2 g1 m4 W2 D2 Ct Rs E4 _ (Hin2 t Ht))).
   exists (fun t => map_get m (cf0 t)). split; [|split].
   - intros a b Ha Hb E. apply Inj0; [exact Ha|exact Hb|]. apply Inj; [now apply Hin4|now apply Hin4|exact E].
-  - intros n Hn. destruct (Hn0 n Hn) as [A B]. assert (In (nk n) (node_keys frag)) as Hk by (unfold node_keys; now apply in_map).
+  - intros n Hn. destruct (Hn0 n Hn) as [A [B Ck]]. assert (In (nk n) (node_keys frag)) as Hk by (unfold node_keys; now apply in_map).
     assert (forall key v, key <> S "hcount" -> key <> S "aromatic" -> key <> S "ez_isomer_atoms" -> key <> S "ez_isomer" -> key <> S "ez_isomer_class" ->
               key <> S "atomname" -> node_get m2 (cf0 (nk n)) key = Some v -> node_get m7 (map_get m (cf0 (nk n))) key = Some v) as Hkey.
     { intros key v K1 K2 K3 K4 K5 K6 Hv.
       rewrite (ReturnedAnnot.set_atom_names_keeps _ _ _ _ _ E8 _ key K6), (EzProofs.annotate_keeps _ _ _ key K4 K5 E6), (Hng _ key (Hin4 _ Hk) K3).
       exact (c_attr m2 g1 m4 W2 D2 Ct Rs E4 _ key v (Hin2 _ Hk) K1 K2 Hv). }
-    split; [apply Hkey; try exact A|apply Hkey; try exact B]; intros X; apply str_eqb_eq in X; vm_compute in X; discriminate.
+    split; [apply Hkey; try exact A; intros X; apply str_eqb_eq in X; vm_compute in X; discriminate|].
+    split; [apply Hkey; try exact B; intros X; apply str_eqb_eq in X; vm_compute in X; discriminate|].
+    intros key v Hnw Hv. unfold written_keys in Hnw. cbn [In] in Hnw.
+    apply Hkey; try (intros X; apply Hnw; rewrite X; tauto). rewrite Ck; [exact Hv| | | |]; intros X; apply Hnw; rewrite X; tauto.
   - intros a b Ha Hb. rewrite (names_has_edge _ _ _ _ _ _ _ E8), (ez_has_edge _ _ _ _ E6), (Hhe _ _ (Hin4 a Ha) (Hin4 b Hb)).
     rewrite (c_edge m2 g1 m4 W2 D2 Ct Rs E4 _ _ (Hin2 a Ha) (Hin2 b Hb)).
     rewrite !has_edge_attrs, (He0 a b Ha Hb). unfold tmpl_edge. destruct (edge_attrs frag a b); reflexivity.
